@@ -50,6 +50,9 @@ func containsFold(hay, needle string) bool {
 type Universe struct {
 	Msgs           []Msg
 	MaxSeq, MaxUID uint32
+	// Saved is the result of the last SEARCH RETURN (SAVE): what the "$"
+	// marker (imap.SearchRes) stands for in this universe.
+	Saved map[uint32]bool
 }
 
 func inSeqSet(s imap.SeqSet, n, max uint32) bool {
@@ -98,6 +101,12 @@ func (u *Universe) Match(c *imap.SearchCriteria, m Msg) bool {
 		}
 	}
 	for _, s := range c.UID {
+		if imap.IsSearchRes(s) {
+			if !u.Saved[m.UID] {
+				return false
+			}
+			continue
+		}
 		if !inUIDSet(s, m.UID, u.MaxUID) {
 			return false
 		}
@@ -216,5 +225,11 @@ func NewUniverse(n int) *Universe {
 	}
 	u.MaxSeq = uint32(n)
 	u.MaxUID = u.Msgs[n-1].UID
+	u.Saved = map[uint32]bool{}
+	for i, m := range u.Msgs {
+		if i%3 != 1 {
+			u.Saved[m.UID] = true
+		}
+	}
 	return u
 }
